@@ -304,7 +304,7 @@ def _snapshot(frame_locals, wanted):
     return vals, objs
 
 
-def record_run(fn, args, ctx, names=None, limit: int = 10, max_events: int = 400, known_lines=None):
+def record_run(fn, args, ctx, names=None, limit: int = 10, max_events: int = 400, known_lines=None, with_lines=None):
     """Runs fn(*args, ctx=ctx) under a line tracer.  Returns {'ev': [...], 'ret': [value] | [], 'exc': bool, 'err': str} or None
     when the run is too long to ship."""
     name = fn.ast.name
@@ -328,6 +328,8 @@ def record_run(fn, args, ctx, names=None, limit: int = 10, max_events: int = 400
                 classes.setdefault(o, []).append(k)
             same = sorted(sorted(ns) for ns in classes.values() if len(ns) > 1)
             state['events'].append({'l': str(frame.f_lineno), 'v': delta, 'same': same})
+        elif event == 'exception':
+            state['events'].append({'l': 'EXC', 'v': {}, 'same': []})
         return local
 
     def tracer(frame, event, arg):
@@ -361,6 +363,14 @@ def record_run(fn, args, ctx, names=None, limit: int = 10, max_events: int = 400
         signal.setitimer(signal.ITIMER_REAL, 0)
     if state['over'] or not state['events']:
         return None
+    # an exception on its way out passes through the enclosing `with` headers (their __exit__ runs): those events are not statements
+    # about to run, and the statement that raised did not complete
+    evs = state['events']
+    if out['exc']:
+        marks = [j for j, e in enumerate(evs) if e['l'] == 'EXC']
+        if marks:
+            evs = evs[:marks[0]] if all(e['l'] == 'EXC' or (with_lines is not None and e['l'] in with_lines) for e in evs[marks[0]:]) else evs
+    state['events'] = [e for e in evs if e['l'] != 'EXC']
     # consecutive events of one line are one statement (the steps of a comprehension): keep the first, hand the changes on
     merged: list = []
     carry: dict = {}
